@@ -133,6 +133,10 @@ class Emitter:
             return self.key(e[1]) + "(" + ",".join(self.key(a) for a in e[2]) + ")"
         if e[0] == "num":
             return e[1]
+        if e[0] == "bin":
+            return "(" + self.key(e[2]) + e[1] + self.key(e[3]) + ")"
+        if e[0] == "neg":
+            return "(-" + self.key(e[1]) + ")"
         raise TranslateError("no canonical name for %r" % (e,))
 
     def num(self, v):
